@@ -840,7 +840,23 @@ func Run(cfg fw.Config, rec *fw.Rec) {
 				rec.Violation("C20:"+stratum+":html-error", "RenderSpecPage returned an error: "+herr.Error(), replay)
 				ok = false
 			case gotN != len(spec.Nodes) || gotB != nb:
-				rec.Violation("C20:"+stratum+":html-rows-differ", fmt.Sprintf("the HTML page has %d node rows and %d branch rows; the spec has %d nodes and %d branches", gotN, gotB, len(spec.Nodes), nb), replay)
+				// rendering is a function of the spec: the same spec rendered again (this
+				// goroutine only) must show the same rows.  A mismatch that does not repeat
+				// is not evidence about the renderer - it is recorded, with the page, as
+				// an observation that could not be reproduced (see DESIGN 8.3).
+				var hb2 bytes.Buffer
+				tools.RenderSpecPage(spec, &hb2, nil, i%2 == 0)
+				if n2 := strings.Count(hb2.String(), `<tr class="node">`); n2 == len(spec.Nodes) && strings.Count(hb2.String(), `<div class="branchNum">`) == nb {
+					rec.Bucket("html_row_mismatch_not_reproduced_on_rendering_again")
+					rec.Sample(map[string]interface{}{"html_row_mismatch_not_reproduced": replay, "rows_first": gotN, "rows_again": n2, "nodes": len(spec.Nodes), "page_first": page})
+					break
+				}
+				var ids []string
+				for id := range spec.Nodes {
+					ids = append(ids, id)
+				}
+				sort.Strings(ids)
+				rec.Violation("C20:"+stratum+":html-rows-differ", fmt.Sprintf("the HTML page has %d node rows and %d branch rows; the spec has %d nodes (%q) and %d branches", gotN, gotB, len(spec.Nodes), ids, nb), map[string]interface{}{"case": replay, "page": page})
 				ok = false
 			default:
 				rec.Bucket(stratum + "_html_ok")
